@@ -1,4 +1,6 @@
 pub mod c04;
+pub mod c07;
+pub mod c08;
 pub mod c09;
 pub mod c13;
 pub mod c14;
